@@ -1,7 +1,6 @@
 package netutil
 
 import (
-	"net"
 	"strings"
 )
 
@@ -45,13 +44,30 @@ func StripHostPort(h string) string {
 		return h
 	}
 	// If no port on host, return unchanged
-	if !strings.Contains(h, ":") {
+	i := strings.LastIndexByte(h, ':')
+	if i < 0 {
 		return strings.TrimSuffix(h, ".")
 	}
 
-	host, _, err := net.SplitHostPort(h)
-	if err != nil {
-		return h // on error, return unchanged
+	// Same splitting rules as net.SplitHostPort, which allocates an error for every host it rejects
+	// (e.g. an IPv6 literal without port): on error, return unchanged.
+	var host string
+	j, k := 0, 0
+	if h[0] == '[' {
+		end := strings.IndexByte(h, ']')
+		if end < 0 || end+1 != i {
+			return h
+		}
+		host = h[1:end]
+		j, k = 1, end+1
+	} else {
+		host = h[:i]
+		if strings.IndexByte(host, ':') >= 0 {
+			return h
+		}
+	}
+	if strings.IndexByte(h[j:], '[') >= 0 || strings.IndexByte(h[k:], ']') >= 0 {
+		return h
 	}
 	return strings.TrimSuffix(host, ".")
 }
